@@ -284,7 +284,10 @@ class Filterbank(ABC):
             **plan_kwargs,
         ):
             kernels.extract_tim(data, tim_ar, self.header.nchans, nsamps_r, ii * gulp)
-        return TimeSeries(tim_ar, self.header.new_header({"nchans": 1, "dm": 0}))
+        return TimeSeries(
+            tim_ar,
+            self.header.new_header({"nchans": 1, "dm": 0, "nsamples": tim_len}),
+        )
 
     def bandpass(
         self,
@@ -365,7 +368,8 @@ class Filterbank(ABC):
         chan_delays = self.header.get_dmdelays(dm)
         max_delay = int(chan_delays.max())
         gulp = max(2 * max_delay, gulp)
-        tim_len = self.header.nsamples - max_delay
+        nsamps_sel = (self.header.nsamples - start) if nsamps is None else nsamps
+        tim_len = nsamps_sel - max_delay
         tim_ar = np.zeros(tim_len, dtype=np.float32)
         for nsamps_r, ii, data in self.read_plan(
             gulp=gulp,
@@ -424,7 +428,8 @@ class Filterbank(ABC):
         if ichan >= self.header.nchans or ichan < 0:
             msg = f"Selected channel {ichan} out of range."
             raise ValueError(msg)
-        tim_ar = np.empty(self.header.nsamples, dtype=np.float32)
+        tim_len = (self.header.nsamples - start) if nsamps is None else nsamps
+        tim_ar = np.empty(tim_len, dtype=np.float32)
         for nsamps_r, ii, data in self.read_plan(
             gulp=gulp,
             start=start,
@@ -433,7 +438,10 @@ class Filterbank(ABC):
         ):
             data_2d = data.reshape(nsamps_r, self.header.nchans)
             tim_ar[ii * gulp : (ii + 1) * gulp] = data_2d[:, ichan]
-        return TimeSeries(tim_ar, self.header.new_header({"dm": 0, "nchans": 1}))
+        return TimeSeries(
+            tim_ar,
+            self.header.new_header({"dm": 0, "nchans": 1, "nsamples": tim_len}),
+        )
 
     def invert_freq(
         self,
